@@ -281,6 +281,9 @@ func (jr *jpegReader) readExif() (err error) {
 		if err = jr.ExifReader(jr.br, exifHeader); err != nil {
 			return err
 		}
+		// The reader consumed the Exif block from the underlying bufio.Reader:
+		// account for it so that later absolute offsets stay correct.
+		jr.discarded += exifLength
 		// Discard remaining bytes
 		remain = 0
 	}
@@ -305,8 +308,10 @@ func (jr *jpegReader) readXMP() (err error) {
 		if err = jr.XMPReader(r); err != nil {
 			return err
 		}
-		// Discard remaining bytes
-		remain = int(r.(*io.LimitedReader).N)
+		// Account for what the reader consumed, discard the remaining bytes
+		left := int(r.(*io.LimitedReader).N)
+		jr.discarded += uint32(remain - left)
+		remain = left
 	}
 	// Discard remaining bytes
 	return jr.discard(remain)
